@@ -665,3 +665,187 @@ Proof.
   - rewrite (collect_data_map sF ids (recs_for ps) Hdata). reflexivity.
   - intros i Hin. unfold sF. rewrite ops_meta_all_eq. apply meta_final. right. split; [exact Hin|reflexivity].
 Qed.
+
+(* ------------------------------------------------------------------ products under user-given names *)
+Definition rv_put (v : nat) (o : fop) : Prop := exists p, o = Put p (ResF None) \/ o = Put p (ResF (Some v)).
+
+Lemma ops_wfiles_shape v ws : Forall (rv_put v) (ops_wfiles ws v).
+Proof.
+  unfold ops_wfiles. induction ws as [|w ws IH]; cbn [flat_map]; [constructor|].
+  apply Forall_app. split; [|exact IH]. unfold ops_wfile. apply Forall_app. split; apply Forall_forall; intros o Ho;
+    apply repeat_spec in Ho; subst; exists (fst w); auto.
+Qed.
+
+(* while files are (re)written every name holds what it held before, an incomplete file or a complete new one *)
+Lemma rv_puts_point v l : Forall (rv_put v) l -> forall s q,
+  apply l s q = s q \/ apply l s q = Some (ResF None) \/ apply l s q = Some (ResF (Some v)).
+Proof.
+  induction 1 as [|o l Ho _ IH]; intros s q; [left; reflexivity|].
+  change (apply (o :: l) s) with (apply l (apply1 s o)).
+  destruct (IH (apply1 s o) q) as [E|E]; [|right; exact E]. rewrite E.
+  destruct Ho as [p [->| ->]]; simpl; destruct (path_beq q p); auto.
+Qed.
+
+Lemma ops_wfiles_head v ws p : first_written ws = Some p ->
+  exists rest, ops_wfiles ws v = Put p (ResF None) :: rest /\ Forall (rv_put v) rest.
+Proof.
+  intro Hf. destruct ws as [|[q [e t]] ws]; [discriminate|]. simpl in Hf. injection Hf as ->.
+  pose proof (ops_wfiles_shape v ((p, (e, t)) :: ws)) as Hsh.
+  unfold ops_wfiles in *. cbn [flat_map] in *. unfold ops_wfile at 1. unfold ops_wfile at 1 in Hsh.
+  cbn [fst snd repeat app] in *.
+  eexists. split; [reflexivity|]. inversion Hsh; assumption.
+Qed.
+
+Lemma first_put_point v p l s j : Forall (rv_put v) l ->
+  apply (firstn (S j) (Put p (ResF None) :: l)) s p = Some (ResF None) \/
+  apply (firstn (S j) (Put p (ResF None) :: l)) s p = Some (ResF (Some v)).
+Proof.
+  intro H. cbn [firstn].
+  change (apply (Put p (ResF None) :: firstn j l) s) with (apply (firstn j l) (apply1 s (Put p (ResF None)))).
+  destruct (rv_puts_point v _ (Forall_firstn (rv_put v) j l H) (apply1 s (Put p (ResF None))) p) as [E|E]; [|exact E].
+  left. rewrite E. simpl. rewrite path_beq_refl. reflexivity.
+Qed.
+
+Lemma read_all_ext nr : forall s s', (forall p, In p nr -> s p = s' p) -> read_all s nr = read_all s' nr.
+Proof.
+  induction nr as [|p nr IH]; intros s s' H; [reflexivity|]. simpl.
+  rewrite (H p (or_introl eq_refl)), (IH s s'); [reflexivity|]. intros q Hq. apply H. right. exact Hq.
+Qed.
+
+Lemma read_all_gone nr : forall s p, In p nr -> s p = None -> read_all s nr = None.
+Proof.
+  induction nr as [|q nr IH]; intros s p Hin E; [destruct Hin|]. simpl. destruct Hin as [->|Hin].
+  - rewrite E. reflexivity.
+  - rewrite (IH s p Hin E). destruct (s q) as [[| | | | | |[]|]|]; reflexivity.
+Qed.
+
+Lemma read_all_cases v nr : forall s,
+  (forall p, In p nr -> s p = None \/ s p = Some (ResF None) \/ s p = Some (ResF (Some v))) ->
+  read_all s nr = None \/ read_all s nr = Some (map (fun _ => v) nr).
+Proof.
+  induction nr as [|q nr IH]; intros s H; [right; reflexivity|]. simpl.
+  destruct (IH s (fun p Hp => H p (or_intror Hp))) as [E|E]; rewrite E.
+  - left. destruct (s q) as [[| | | | | |[]|]|]; reflexivity.
+  - destruct (H q (or_introl eq_refl)) as [E1|[E1|E1]]; rewrite E1; auto.
+Qed.
+
+Lemma ops_dels_sub s0 nd k : sub (apply (firstn k (ops_dels s0 nd)) s0) s0.
+Proof. unfold ops_dels. rewrite firstn_map. apply del_sub. Qed.
+
+Lemma ops_dels_gone s0 nd p : In p nd -> apply (ops_dels s0 nd) s0 p = None.
+Proof.
+  intro Hin. unfold ops_dels. destruct (s0 p) as [c|] eqn:E.
+  - apply del_gone. apply filter_In. split; [exact Hin|]. rewrite E. reflexivity.
+  - destruct (del_sub (filter (fun p0 => present (s0 p0)) nd) s0 p) as [H|H]; [exact H|]. rewrite H. exact E.
+Qed.
+
+(* what a reader sees of a state all of whose read names are unchanged or gone *)
+Lemma recover_product_sub nr s' s : sub s' s -> recover_product nr s' = Err \/ recover_product nr s' = recover_product nr s.
+Proof.
+  intro Hsub. unfold recover_product.
+  assert (H : (exists p, In p nr /\ s' p = None) \/ (forall p, In p nr -> s' p = s p)).
+  { induction nr as [|q nr IH]; [right; intros p []|].
+    destruct IH as [[p [Hp E]]|IH]; [left; exists p; split; [right; exact Hp|exact E]|].
+    destruct (Hsub q) as [E|E]; [left; exists q; split; [left; reflexivity|exact E]|].
+    right. intros p [<-|Hp]; [exact E|apply IH; exact Hp]. }
+  destruct H as [[p [Hp E]]|H].
+  - left. rewrite (read_all_gone nr s' p Hp E). reflexivity.
+  - right. rewrite (read_all_ext nr s' s H). reflexivity.
+Qed.
+
+(* THE naming theorem: the names removed (nd), written (ws) and read (nr) are arbitrary paths; if every
+   name that is read is removed beforehand or is the file written first, then after a crash at ANY point,
+   from ANY prior state (older products, leftovers of an earlier crash, nothing), the reader fails or sees
+   the old product or the complete new one *)
+Theorem crash_safe_product s0 nd ws nr v k :
+  (forall p, In p nr -> In p nd \/ first_written ws = Some p) ->
+  let ops := ops_product true s0 nd ws v in
+  In (recover_product nr (apply (firstn k ops) s0)) [Err; recover_product nr s0; Ok (map (fun _ => v) nr)].
+Proof.
+  intros Hn ops. unfold ops, ops_product.
+  destruct (firstn_app_cases k (ops_dels s0 nd) (ops_wfiles ws v)) as [[_ ->]|[j [_ ->]]].
+  - destruct (recover_product_sub nr _ s0 (ops_dels_sub s0 nd k)) as [E|E]; rewrite E; simpl; auto.
+  - rewrite apply_app. set (s1 := apply (ops_dels s0 nd) s0).
+    destruct j as [|j].
+    + simpl. assert (Hs : sub s1 s0) by (unfold s1; rewrite <- (firstn_all (ops_dels s0 nd)); apply ops_dels_sub).
+      change (apply [] s1) with s1.
+      destruct (recover_product_sub nr s1 s0 Hs) as [E|E]; rewrite E; simpl; auto.
+    + assert (Hc : forall p, In p nr ->
+        apply (firstn (S j) (ops_wfiles ws v)) s1 p = None \/
+        apply (firstn (S j) (ops_wfiles ws v)) s1 p = Some (ResF None) \/
+        apply (firstn (S j) (ops_wfiles ws v)) s1 p = Some (ResF (Some v))).
+      { intros p Hp.
+        pose proof (Forall_firstn (rv_put v) (S j) _ (ops_wfiles_shape v ws)) as Hsh.
+        destruct (Hn p Hp) as [Hd|Hf].
+        - destruct (rv_puts_point v _ Hsh s1 p) as [E|E]; [|right; exact E].
+          left. rewrite E. unfold s1. apply ops_dels_gone. exact Hd.
+        - destruct (ops_wfiles_head v ws p Hf) as [rest [Eo Hr]]. rewrite Eo.
+          right. apply first_put_point. exact Hr. }
+      unfold recover_product. destruct (read_all_cases v nr _ Hc) as [E|E]; rewrite E; simpl; auto.
+Qed.
+
+(* an uninterrupted write reads back as the new product when every name that is read is written *)
+Lemma ops_wfile_paths v w : Forall (fun o => op_path o = fst w) (ops_wfile v w).
+Proof. unfold ops_wfile. apply Forall_app. split; apply Forall_forall; intros o Ho; apply repeat_spec in Ho; subst; reflexivity. Qed.
+
+Lemma ops_wfiles_final v : forall ws s p, In p (map fst ws) -> apply (ops_wfiles ws v) s p = Some (ResF (Some v)).
+Proof.
+  unfold ops_wfiles. induction ws as [|w ws IH]; intros s p Hin; [destruct Hin|].
+  cbn [flat_map]. rewrite apply_app.
+  destruct (mem_path p (map fst ws)) eqn:Em.
+  - apply IH. apply mem_path_In. exact Em.
+  - destruct Hin as [<-|Hin].
+    + rewrite apply_untouched.
+      * unfold ops_wfile. rewrite apply_app. apply apply_repeat_put.
+      * clear IH. induction ws as [|w' ws IH]; cbn [flat_map]; [constructor|]. simpl in Em. apply orb_false_iff in Em. destruct Em as [E1 E2].
+        apply Forall_app. split; [|apply IH; exact E2].
+        apply (touch_other _ (fst w')); [|apply ops_wfile_paths]. intro H. rewrite H, path_beq_refl in E1. discriminate.
+    + exfalso. clear IH. induction ws as [|w' ws IH]; [destruct Hin|]. simpl in Em. apply orb_false_iff in Em. destruct Em as [E1 E2].
+      destruct Hin as [<-|Hin]; [rewrite path_beq_refl in E1; discriminate|auto].
+Qed.
+
+Theorem product_complete fixed s0 nd ws nr v :
+  (forall p, In p nr -> In p (map fst ws)) ->
+  recover_product nr (apply (ops_product fixed s0 nd ws v) s0) = Ok (map (fun _ => v) nr).
+Proof.
+  intro H. unfold ops_product. rewrite apply_app. unfold recover_product.
+  set (s1 := apply (if fixed then ops_dels s0 nd else []) s0).
+  assert (E : read_all (apply (ops_wfiles ws v) s1) nr = Some (map (fun _ => v) nr)).
+  { clear -H. induction nr as [|p nr IH]; [reflexivity|]. simpl.
+    rewrite (ops_wfiles_final v ws s1 p (H p (or_introl eq_refl))), IH; [reflexivity|]. intros q Hq. apply H. right. exact Hq. }
+  rewrite E. reflexivity.
+Qed.
+
+(* the boolean the harness evaluates on the observed names implies the hypotheses of both theorems *)
+Lemma names_ok_b_spec nd ws nr : names_ok_b nd ws nr = true ->
+  (forall p, In p nr -> In p nd \/ first_written ws = Some p) /\ (forall p, In p nr -> In p (map fst ws)).
+Proof.
+  unfold names_ok_b. intro H. apply andb_true_iff in H. destruct H as [H1 H2]. rewrite forallb_forall in H1, H2. split.
+  - intros p Hp. specialize (H1 p Hp). apply orb_true_iff in H1. destruct H1 as [H1|H1]; [left; apply mem_path_In; exact H1|].
+    right. destruct (first_written ws) as [q|]; [|discriminate]. apply path_beq_eq in H1. subst. reflexivity.
+  - intros p Hp. apply mem_path_In. exact (H2 p Hp).
+Qed.
+
+(* the instance of the current code for a prefix without and with dots: one derivation of the names *)
+Theorem crash_safe_triple_named (dat smp cov : path) s0 e1 t1 e2 t2 e3 t3 v k :
+  let ops := ops_product true s0 [smp; cov] [(dat, (e1, t1)); (smp, (e2, t2)); (cov, (e3, t3))] v in
+  In (recover_product [dat; smp] (apply (firstn k ops) s0)) [Err; recover_product [dat; smp] s0; Ok [v; v]].
+Proof.
+  apply (crash_safe_product s0 [smp; cov] [(dat, (e1, t1)); (smp, (e2, t2)); (cov, (e3, t3))] [dat; smp] v k).
+  intros p [<-|[<-|[]]]; simpl; auto.
+Qed.
+
+(* ... and what goes wrong when the names are derived in two ways: the files are written and read as
+   prefix + ".dat/.smp/.cov" (POther 3, 4, 5) while the removal still computes stem + ".smp/.cov"
+   (POther 1, 2, which do not exist): the old samples survive the rewrite of .dat *)
+Definition s_old_named : list (path * content) :=
+  [(PRoot, Dir); (POther 3, ResF (Some 1)); (POther 4, ResF (Some 1)); (POther 5, ResF (Some 1))].
+Theorem product_names_refuted :
+  let nd := [POther 1; POther 2] in
+  let ws := [(POther 3, (0, 0)); (POther 4, (0, 0)); (POther 5, (0, 0))] in
+  let nr := [POther 3; POther 4] in
+  names_ok_b nd ws nr = false /\
+  recover_product nr (fs_of s_old_named) = Ok [1; 1] /\
+  recover_product nr (apply (ops_product true (fs_of s_old_named) nd ws 2) (fs_of s_old_named)) = Ok [2; 2] /\
+  recover_product nr (apply (firstn 2 (ops_product true (fs_of s_old_named) nd ws 2)) (fs_of s_old_named)) = Ok [2; 1].
+Proof. vm_compute. repeat split. Qed.
